@@ -65,7 +65,8 @@ BOUNDS = {
 REACH = {'val': ['compared'], 'metric': ['metric']}
 SKELS = ['single_FC', 'chain_fc_tanh', 'tensor_2_consumers',
          'intermediate_is_output', 'input_is_output', 'single_SPLIT',
-         'two_subgraphs_independent', 'const_shared_by_two_ops',
+         'two_subgraphs_independent', 'two_subgraphs_signatures_reordered',
+         'const_shared_by_two_ops',
          'constant_is_output']
 SKELS_T = SKELS + ['single_EMBEDDING_LOOKUP', 'diamond', 'tanh_concat_same',
                    'chain_fc_reshape_softmax', 'two_subgraphs_shared_buffer',
